@@ -59,9 +59,15 @@ class Seq(Seqlike):
         return iter(self._d)
 
     def __getitem__(self, index):
+        d = self._d
+        if isinstance(d, str):
+            # concrete letters, symbolic index: keep the index symbolic instead of realising it
+            if isinstance(index, SInt) or (isinstance(index, slice) and (isinstance(index.start, SInt)
+                                                                          or isinstance(index.stop, SInt))):
+                d = SSeq.const(d)
         if isinstance(index, (numbers.Integral, SInt)):
-            return self._d[index]  # a letter, as a string
-        return Seq(self._d[index])
+            return d[index]  # a letter, as a string
+        return Seq(d[index])
 
     @staticmethod
     def _other(o):
